@@ -97,3 +97,12 @@ reg('C25', engine='llsym',
     note='Trusted: clang IR, llsym semantics, strncmp contract. Precondition: table sorted in byte order (the '
          'generator\'s sort is not re-verified). Bounds: <=4 (7) entries, names <=3 (4) bytes.',
     technique='symbolic execution of LLVM IR, SMT (z3 bit-vectors)')
+
+reg('C16', engine='llsym',
+    text='Bounded symbolic execution of the real indexing, slicing, slice-assignment and pointer-arithmetic kernels '
+         'with symbolic index/bounds (any Python int), length, item size and data address: accepted iff in range, '
+         'IndexError without touching memory otherwise, exact addresses and view lengths, exactly j-i values for '
+         'slice assignment, (p+i)-p==i and (p+i)[j]==p[i+j].',
+    note='Trusted: clang IR, llsym semantics, CPython contracts in vf/pystubs.py. One step per operation from an '
+         'arbitrary cdata (histories by induction). ffi.addressof/offsetof index forms not covered.',
+    technique='symbolic execution of LLVM IR, SMT (z3 bit-vectors)')
